@@ -187,11 +187,18 @@ def d5(repo: Repo) -> RuleResult:
         g = get_go(repo)
         fn = g.func("NewEncodeContext")
         txt = go_src(fn.body.stmts[0].vals[0]) if fn.body.stmts and fn.body.stmts[0].k == "return" else ""
-        ret = fn.body.stmts[0].vals[0] if fn.body.stmts and fn.body.stmts[0].k == "return" else None
+        # through the path engine: keyed and positional struct literals alike
+        from .flows import go_runtime as _gr
+        from .pyflow import new_parts as _np
+
+        GL = _gr(repo)
         ok = False
-        if ret is not None and ret.k == "un" and ret.x.k == "complit":
-            el = ret.x.elts
-            ok = len(el) == 3 and go_src(el[0]) == "true" and go_src(el[1]) == "0" and go_src(el[2]).startswith("make(") and go_src(el[2]).endswith("nbytes)")
+        for p_ in GL.flow().run(GL.func("NewEncodeContext")):
+            np_ = _np(p_.ret) if p_.ret is not None else None
+            if np_ is not None and np_[0] == "ProcessContext":
+                fs = np_[1]
+                sa_ = single_atom(fs["s"]) if "s" in fs else None
+                ok = fs.get("isEncode") is not None and fs["isEncode"].const_value() == 1 and fs.get("i") is not None and fs["i"].const_value() == 0 and sa_ is not None and sa_[0] == "call" and sa_[1] == "make" and len(sa_[2]) >= 2 and show(sa_[2][-1]) == [a_.arg for a_ in GL.func("NewEncodeContext").args.args][0]
         res.inst(part="go", function="NewEncodeContext", ok=ok)
         if not ok:
             fd = Finding("D5", "lib/go/bitproto.go", fn.line, "NewEncodeContext", txt, "the encode context is not {isEncode: true, i: 0, s: make([]byte, nbytes)}", tag="go:NewEncodeContext")
